@@ -64,3 +64,48 @@ fn c01_engine_equals_linear_scan() {
     assert!(cases > 1000);
     assert!(mismatches.is_empty(), "{} of {} cases differ; first: {}", mismatches.len(), cases, mismatches[0]);
 }
+
+/// OBL C01.witness.no_rule_lost_by_bucketing
+#[test]
+fn c01_a_rule_in_an_engine_matches_what_it_matches_alone() {
+    // "No rule that matches a request is lost, and no rule that does not match is applied, because of how rules are bucketed by token":
+    // every pattern up to length 3 (thorough: 4) over {a d 1 % - _ . / * ^ é A =} - token characters, token separators, wildcards next to
+    // either - with each anchor shape, as a blocking rule, an $important rule and an exception, loaded into an engine (optimised and not)
+    // next to decoy rules: the engine must report the rule for a URL exactly when the rule, tested alone, matches that URL.
+    let thorough = std::env::var("VF_TIER").as_deref() == Ok("thorough");
+    let alphabet = ['a', 'd', '1', '%', '-', '_', '.', '/', '*', '^', 'é', 'A', '='];
+    let mut bodies: Vec<String> = vec![];
+    let mut frontier = vec![String::new()];
+    for _ in 0..(if thorough { 4 } else { 3 }) {
+        let mut nextf = vec![];
+        for p in &frontier { for c in alphabet { let mut q = p.clone(); q.push(c); nextf.push(q); } }
+        bodies.extend(nextf.iter().cloned());
+        frontier = nextf;
+    }
+    let urls = ["https://ad.d1.a/ad/a1%ad-ad_a.d?a=d&d1=a-1", "https://a-d.ad/1a/d1/=a=/%1d%a1", "https://d.a/aéd/é1/a_1/A1/AD", "http://1.d/a.d/d.a/ad.1/a*d", "https://xn--d-9fa.a/ad=1/a%/d-/_a_/.d."];
+    let reqs: Vec<Request> = urls.iter().map(|u| Request::new(u, "https://src.test/", "script").unwrap()).collect();
+    let (mut n, mut bad) = (0u64, vec![]);
+    for body in &bodies {
+        for text in [body.clone(), format!("|{body}"), format!("{body}|"), format!("||{body}"), format!("@@{body}"), format!("{body}$important")] {
+            // the list loader drops one-character lines; a rule counts once the loader accepts it
+            if text.chars().count() == 1 { continue; }
+            let Ok(f) = NetworkFilter::parse(&text, true, Default::default()) else { continue };
+            for optimize in [false, true] {
+                let mut fs = FilterSet::new(true);
+                // decoys: for an exception, a blocking rule that matches every URL (so that exceptions are consulted); otherwise rules that match nothing
+                let decoys: [&str; 2] = if f.is_exception() { ["/$script", "zzzdecoy"] } else { ["zzzdecoy$script", "@@zzzexc"] };
+                fs.add_filters([text.as_str(), decoys[0], decoys[1]], ParseOptions::default());
+                let e = Engine::from_filter_set(fs, optimize);
+                for r in &reqs {
+                    n += 1;
+                    let want = f.matches(r, &mut RegexManager::default());
+                    let v = e.check_network_request(r);
+                    let got = if f.is_exception() { v.exception.is_some() } else { v.matched };
+                    if want != got && bad.len() < 40 { bad.push(format!("{text:?} optimize={optimize} vs {}: the rule alone {want}, in the engine {got}", r.url)); }
+                }
+            }
+        }
+    }
+    assert!(n > 50_000, "{n}");
+    assert!(bad.is_empty(), "{} (capped) of {n} cases: {:#?}", bad.len(), &bad[..bad.len().min(10)]);
+}
